@@ -419,6 +419,12 @@ for _f in [f for f in _files if "+" not in _os.path.basename(f)] + [f for f in _
     if "+" in _name:
         _base = PROPS[_name.split("+")[0]]
         for _k, _v in _m.EXTEND.items():
+            if _k == "drop_theorems":
+                # statements found vacuous / trivially true by the vacuity audit: no longer obligations (they stay in the
+                # Lean files, flagged); each entry is (name, reason, replaced by)
+                _base["theorems"] = [t for t in _base.get("theorems", []) if t not in [d[0] for d in _v]]
+                _base["superseded_theorems"] = list(_base.get("superseded_theorems", [])) + [list(d) for d in _v]
+                continue
             if isinstance(_v, list):
                 _base[_k] = list(_base.get(_k, [])) + [x for x in _v if x not in _base.get(_k, [])]
             elif isinstance(_v, str):
